@@ -579,6 +579,12 @@ pub fn bfs_file(
 
 /// Replays a cursor history from a fresh cursor, checking the C03 and C16 oracles at every step.
 pub fn replay_history(spec: &FileSpec, ops: &[Op], prop: &str) -> Result<String, String> {
+    replay_history_opt(spec, ops, prop, false)
+}
+
+/// `single_cursor`: every operation is applied to ONE cursor object (no clone between steps), as
+/// the third engine does.
+pub fn replay_history_opt(spec: &FileSpec, ops: &[Op], prop: &str, single_cursor: bool) -> Result<String, String> {
     let (entries, bytes) = crate::common::build_file(spec)?;
     // C10 runs its histories on the V1 re-trailed file
     let bytes = if prop == "C10" { vlib::fmt::retrail_as_v1(&bytes)? } else { bytes };
@@ -600,13 +606,18 @@ pub fn replay_history(spec: &FileSpec, ops: &[Op], prop: &str) -> Result<String,
             pos = Pos::Unspec;
             continue;
         }
-        let cur_before = own(c.current());
-        let mut next = c.clone();
-        let got = apply(&mut next, op);
-        if own(c.current()) != cur_before && prop == "C03" {
-            return Err(format!("{log}step {i}: {} on a clone changed the original cursor", op.brief()));
-        }
-        c = next;
+        let got = if single_cursor {
+            apply(&mut c, op)
+        } else {
+            let cur_before = own(c.current());
+            let mut next = c.clone();
+            let got = apply(&mut next, op);
+            if own(c.current()) != cur_before && prop == "C03" {
+                return Err(format!("{log}step {i}: {} on a clone changed the original cursor", op.brief()));
+            }
+            c = next;
+            got
+        };
         let loads = stats.block_loads(&crate::files::block_offsets(&bytes));
         let (want, mut npos) = model_step(&model, pos, op);
         let unspecified = want.is_none() && !matches!(op, Op::Reset);
@@ -765,6 +776,120 @@ pub fn enumerate_histories(
             continue;
         }
         stack.push((c, npos, 0));
+    }
+    (histories, operations)
+}
+
+/// Third engine: all histories of length exactly `depth` (hence all shorter ones as prefixes) over
+/// an alphabet that also holds EQ and probes outside the key range, each executed on ONE cursor
+/// object from open to the last operation — no clone in between, so state that `Clone` would not
+/// carry over (or would reset) takes part. Returns (histories, operations).
+pub fn single_cursor_histories(
+    name: &str,
+    spec: &FileSpec,
+    entries: &[vlib::fmt::Entry],
+    bytes: &[u8],
+    depth: usize,
+    prop: &str,
+    acc: &mut Acc,
+) -> (u64, u64) {
+    let model = Model::new(entries.to_vec());
+    let n = model.len();
+    let mut ops = vec![Op::First, Op::Last, Op::Next, Op::Prev, Op::Reset];
+    let mut picks: Vec<usize> = vec![0, n / 2, n.saturating_sub(1)];
+    picks.dedup();
+    for i in picks {
+        if i < n {
+            let mut gap = model.entries[i].0.clone();
+            gap.push(0);
+            ops.push(Op::Ge(hex(&gap)));
+            ops.push(Op::Le(hex(&model.entries[i].0)));
+        }
+    }
+    if n > 0 {
+        ops.push(Op::Eq(hex(&model.entries[n / 2].0)));
+        // seeks that find nothing: above the last key, below the first
+        let mut above = model.entries[n - 1].0.clone();
+        above.push(0xFF);
+        ops.push(Op::Ge(hex(&above)));
+        if !model.entries[0].0.is_empty() {
+            ops.push(Op::Le(hex(&[])));
+        }
+    }
+    let total = ops.len().pow(depth as u32);
+    let mut histories = 0u64;
+    let mut operations = 0u64;
+    let mut violations = 0usize;
+    'seq: for mut x in 0..total {
+        let seq: Vec<usize> = (0..depth)
+            .map(|_| {
+                let o = x % ops.len();
+                x /= ops.len();
+                o
+            })
+            .collect();
+        let Ok(Ok(reader)) = guarded(|| Reader::new(std::io::Cursor::new(bytes))) else { return (histories, operations) };
+        let Ok(mut c) = reader.into_cursor() else { return (histories, operations) };
+        let mut pos = Pos::Fresh;
+        histories += 1;
+        for (step, &oi) in seq.iter().enumerate() {
+            let op = &ops[oi];
+            let got = apply(&mut c, op);
+            operations += 1;
+            let (want, mut npos) = model_step(&model, pos, op);
+            let unspecified = want.is_none() && !matches!(op, Op::Reset);
+            if unspecified {
+                match &got {
+                    Ok(Some(Some((k, v)))) => {
+                        if let Some(i) = model.exact(k) {
+                            if &model.entries[i].1 == v {
+                                npos = Pos::At(i);
+                            }
+                        }
+                    }
+                    // any outcome is allowed; the rest of this history says nothing
+                    Err(_) => continue 'seq,
+                    _ => {}
+                }
+            }
+            let mut bad: Option<String> = None;
+            match &got {
+                Err(e) => bad = Some(format!("{} -> {e}", op.brief())),
+                Ok(Some(g)) => {
+                    if let Some(w) = &want {
+                        let w_obs: Obs = w.map(|i| (model.entries[i].0.clone(), model.entries[i].1.clone()));
+                        if &w_obs != g {
+                            bad = Some(format!("{} returned {} but the model says {}", op.brief(), obs_brief(g), obs_brief(&w_obs)));
+                        }
+                    }
+                }
+                _ => {}
+            }
+            if bad.is_none() {
+                if let Pos::At(i) = npos {
+                    let cur_now = own(c.current());
+                    let want_cur = Some((model.entries[i].0.clone(), model.entries[i].1.clone()));
+                    if cur_now != want_cur {
+                        bad = Some(format!("after {} current() = {} but the last returned entry is {}", op.brief(), obs_brief(&cur_now), obs_brief(&want_cur)));
+                    }
+                }
+            }
+            if let Some(msg) = bad {
+                violations += 1;
+                let hist: Vec<Op> = seq[..=step].iter().map(|i| ops[*i].clone()).collect();
+                let pstr = hist.iter().map(Op::brief).collect::<Vec<_>>().join(", ");
+                acc.violation(Violation {
+                    signature: format!("file={name};single;path={}", pstr.replace(' ', "")),
+                    summary: format!("{prop}: file {name}: history [{pstr}] on one cursor object: {msg}"),
+                    case: json!({"kind": "cursor_history", "file": spec, "ops": hist, "single_cursor": true}),
+                });
+                if violations >= 10 {
+                    break 'seq;
+                }
+                continue 'seq;
+            }
+            pos = npos;
+        }
     }
     (histories, operations)
 }
